@@ -118,6 +118,7 @@ def run(pid, tier, args):
             for name in ("json", "expr", "interp", "ini"):
                 deep.append((name, "nested", 300 if quick else 1000, 64 << 20))
                 deep.append((name, "flat", 20000 if quick else 100000, 8 << 20))
+            deep.append(("lexflat", "flat", 100000 if quick else 1000000, 4 << 20))
             for name, mode, n, limit in deep:
                 pr = subprocess.run([vhbin, "deep-run", name, mode, str(n), str(limit)], stdout=subprocess.PIPE, stderr=subprocess.PIPE, timeout=600)
                 o = pr.stdout.decode("utf8", "replace").strip()
